@@ -51,7 +51,8 @@ class Ref:
 
 
 OPS = [('handout', 'a'), ('handout', ''), ('handout', 'caf\u00e9 "q" \\ \n\u2713'), ('restore',), ('restore-oldest',), ('save',), ('load',),
-       ('roundtrip',)]
+       ('roundtrip',), ('generate',)]
+GEN_KEYS = {}
 
 
 def apply_op(w, ref, op, last, rec, check_crash, bad, trace):
@@ -77,6 +78,31 @@ def apply_op(w, ref, op, last, rec, check_crash, bad, trace):
                 bad.append(('handout-unknown-key', "hand-out without unused keys returned a key not in the wallet", trace))
         ref.last_req[k] = op[1]
         return w, ref, k
+    if kind == 'generate':
+        # one more key pair is generated on this wallet object (at most one per sequence); the new key is a function of how
+        # many the wallet has, so that replays are deterministic
+        import ecdsa
+        n = len(w.keypairs)
+        if n >= len(KEYS) + 1:
+            return None
+        if len(trace) > 1 and trace[-2][0] != 'load':
+            return None          # (enabled on a fresh wallet object and right after a load: the two kinds of object there are)
+        if n not in GEN_KEYS:
+            GEN_KEYS[n] = world.Key(0x9000 + n)
+        nk = GEN_KEYS[n]
+        orig = ecdsa.SigningKey.__dict__['generate']
+        ecdsa.SigningKey.generate = classmethod(lambda cls, *a, **k: nk.sk)
+        try:
+            w.generate_key()
+        except Exception as e:
+            bad.append(('generate-raises', "generate_key raises %r" % (e,), trace))
+            return w, ref, last
+        finally:
+            ecdsa.SigningKey.generate = orig
+        if w.keypairs.get(nk.pub) != nk.priv or (list(w.unused_public_keys) or [None])[-1] != nk.pub:
+            bad.append(('generate-lost', "a generated key pair is not in the wallet / not its newest unused key", trace))
+        ref.unused.append(nk.pub)
+        return w, ref, last
     if kind == 'restore':
         if last is None or last not in ref.ann:
             return None
